@@ -65,6 +65,24 @@ Theorem C18_ban_lifecycle : forall g ip amt t es1 es2,
      sc (grun g1 es2) ip = None /\ score_of (grun g1 es2) ip = 0 /\ banned (grun g1 es2) ip = false).
 Proof. exact ban_lifecycle. Qed.
 
+(* ... and over ONE run es1 ++ es2: es1 = anything that respects the ban (further penalties on the IP included: they renew it),
+   es2 = the IP is not penalised and some sweep comes after the expiry the ban has after es1: at the end the IP is accepted on both
+   paths iff it is not blacklisted *)
+Theorem C18_ban_lifecycle_one_run : forall g ip amt t es1 es2,
+  0 <= t -> 0 <= exp_secs g -> max_penalty <= score_of g ip + amt ->
+  let g1 := fst (add_penalty g ip amt t) in
+  Forall (respects ip (t + exp_secs g) g1) es1 ->
+  no_pen ip es2 -> (exists now, In (ESweep now) es2 /\ expiry_of (grun g1 es1) ip < now) ->
+  let gf := grun g1 (es1 ++ es2) in
+  banned (grun g1 es1) ip = true /\ sc gf ip = None /\
+  inbound_ok gf (Some ip) = negb (blk gf ip) /\ outbound_ok gf (Some ip) = negb (blk gf ip).
+Proof. exact ban_lifecycle_one_run. Qed.
+
+(* a permanently blacklisted IP stays refused on both paths through every event sequence that does not unblock it *)
+Theorem C18_blacklisted_refused_forever : forall es g ip, ~ In (EUnblock ip) es -> blk g ip = true ->
+  inbound_ok (grun g es) (Some ip) = false /\ outbound_ok (grun g es) (Some ip) = false.
+Proof. exact blacklisted_refused_forever. Qed.
+
 Example C18_timed_schedule_runs :
   let g n := grun (empty_gater 5) (firstn n timed_schedule) in
   (banned (g 2%nat) 9%N, banned (g 7%nat) 9%N, inbound_ok (g 7%nat) (Some 9%N), sc (g 8%nat) 9%N, inbound_ok (g 8%nat) (Some 9%N),
@@ -153,7 +171,7 @@ Theorem C18_legal_message_changes_nothing : forall ahp known m pid ip proc now, 
 Proof. exact legal_message_no_penalty. Qed.
 
 (* the penalty call sites of the whole code base (regenerated from the sources) are exactly the catalogued ones: 2 malformed
-   envelope, 2 unknown procedure, 7 invalid sync request, 7 invalid sync response, 2 rate above the limit (request and response
+   envelope, 2 unknown procedure, 7 invalid sync request, 6 invalid sync response + 1 sync peer not ahead, 2 rate above the limit (request and response
    path), and the 4 forwarding
    calls modelled in Gater.v; every deciding site is guarded; nobody else declares such a function *)
 Theorem C18_penalty_sites_catalogue :
